@@ -160,6 +160,15 @@ CHECKS = {
              'executed on the real edges and Queue and validated by TLC against the edge observer.',
         design='5/C02', technique='TLA+ handoff model (TLC exhaustive, deviation switches) + exhaustive fault matrix on the real edges validated by TLC',
         note='Storage is a DictStorage subclass that fails / blocks on the k-th write. ' + TB),
+    'C08': dict(
+        level='exploration',
+        text='The STARTTLS / AUTH matrices of the statement are finite and enumerated completely against the real Server and '
+             'edge session over real TLS (socketpair + self-signed certificate), and the real Client against a peer injecting '
+             'replies in clear; TLC validates every execution against the TLS/AUTH observer (no crossing, fresh after TLS, AUTH '
+             'gate, malformed AUTH, authenticated only on 235, credentials exact). The TLS layer itself is the real library and '
+             'is not modelled, so the claim is exploration of the stated matrix, not a model-checked design.',
+        design='5/C08 and 8', technique='exhaustive protocol-prefix x injection and AUTH matrices on real TLS, TLC trace validation against a TLA+ observer',
+        note='Known finding D27 (plain-text mechanisms accepted without TLS with the installed pysasl). ' + TB),
 }
 
 HOOK_COMMITS = []
